@@ -1,6 +1,7 @@
 //! ksim — deterministic simulation of konst's stateful handles (iterators, Parser, by-value
 //! containers) against reference models, with fault injection, minimisation and replay.
 
+mod iterworld;
 mod kernel;
 mod prng;
 mod registry;
